@@ -143,6 +143,7 @@ func genC02(r *simrt.Rand, tier string, idx uint64) *Plan {
 		}
 		p.Faults = append(p.Faults, f)
 	}
+	p.Net.ResetAsTimeout = r.Chance(1, 4) // a reset connection's reader gets an error that is not io.EOF
 	return p
 }
 
